@@ -8,7 +8,7 @@ import sweeprun
 ID = "C05"
 MODULE = "HttpcoreModel.Props.C05Pool"      # imports Props.C05 (the Sys theorems)
 THEOREMS = [f"Httpcore.C05.{n}" for n in sweeprun.C05_THEOREMS + ["no_abandoned_after_pass", "quiescent_pool_all_idle", "source_reclaims_abandoned",
-                                                                   "reclaimed_is_unheld", "abandoned_survives_107", "abandoned_reclaimed_now"]] + ["Httpcore.Wrap.failed_establishment_is_dropped", "Httpcore.Wrap.establishing_is_kept", "Httpcore.Wrap.establishing_shared_iff_h2_possible", "Httpcore.Wrap.established_delegates", "Httpcore.Wrap.closed_tunnel_not_shared", "Httpcore.Wrap.failed_view_dropped"]
+                                                                   "reclaimed_is_unheld", "abandoned_survives_107", "abandoned_reclaimed_now"]] + ["Httpcore.LifeProps.h2_state_cases", "Httpcore.LifeProps.h2_abandoned_reclaimed", "Httpcore.LifeProps.h2_active_no_expiry"] + ["Httpcore.Wrap.failed_establishment_is_dropped", "Httpcore.Wrap.establishing_is_kept", "Httpcore.Wrap.establishing_shared_iff_h2_possible", "Httpcore.Wrap.established_delegates", "Httpcore.Wrap.closed_tunnel_not_shared", "Httpcore.Wrap.failed_view_dropped"]
 TRUSTED = [
     "the status predicates of the three wrapper classes (AsyncHTTPConnection, AsyncTunnelHTTPConnection, AsyncSocks5Connection) are translated from the source (harness/lifetrans.py -> Gen.wrap*) and compared with the real objects in all 2560 combinations of their flags and of the inner connection's answers (harness/wrapb.py, this run)",
     "Lean 4.33 kernel; axioms per theorem under coverage.theorems",
